@@ -59,79 +59,132 @@ def entInvalidated (m : C10St) (ent : Option Nat) : Bool :=
   | some k => m.relSeen.contains k || m.inval.contains k
   | none => false
 
-def monC10 : ObsMonitor CObs C10St where
+/-- the bookkeeping shared by all clauses of C10: it never fails -/
+def trk (m : C10St) (o : CObs) : C10St :=
+  match o with
+  | .base (.cboutResolver k v _ e) =>
+    { m with resVals := (v, e) :: m.resVals
+             zeroEntries := if v = 0 ∧ e = 0 then k :: m.zeroEntries else m.zeroEntries }
+  | .base (.envReleased k) => { m with inval := k :: m.inval }
+  | .base (.invSetCtx a _ _) => { m with ctxCalls := a :: m.ctxCalls, anyCtx := true }
+  | .base (.retSetCtx a _) => { m with ctxCalls := m.ctxCalls.erase a }
+  | .base (.invRelease _ r) => { m with relInv := r :: m.relInv }
+  | .base (.cbinRel k _) =>
+    { m with relSeen := k :: m.relSeen
+             accCur := m.accCur.map fun p => if p.2.2.1 == some k then (p.1, p.2.1, p.2.2.1, true) else p }
+  | .inv a op => { m with ops := (a, op) :: m.ops }
+  | .cancelCall a => { m with cancelled := a :: m.cancelled }
+  | .cbin a i v =>
+    { m with accCur := (a, i, entryOf m v, false) :: m.accCur
+             accCount := (a, i + 1) :: m.accCount.filter (·.1 != a) }
+  | .cbout a i r =>
+    let fl := match m.accCur.find? (fun p => p.1 == a && p.2.1 == i) with
+      | some p => p.2.2.2
+      | none => false
+    { m with accCur := m.accCur.filter (·.1 != a)
+             accLast := (a, i, fl, r) :: m.accLast.filter (·.1 != a) }
+  | .ret a v e =>
+    match opOf m a with
+    | some .access => m
+    | some _ => if e = 0 then { m with held := (a, entryOf m v) :: m.held } else m
+    | none => m
+  | .cbinReleased a => { m with fired := a :: m.fired }
+  | _ => m
+
+/-- a clause monitor: the shared bookkeeping plus one check -/
+def clause (chk : C10St → CObs → Bool) : ObsMonitor CObs C10St where
   init := {}
-  step := fun m o =>
-    match o with
-    | .base (.cboutResolver k v _ e) =>
-      some { m with resVals := (v, e) :: m.resVals
-                    zeroEntries := if v = 0 ∧ e = 0 then k :: m.zeroEntries else m.zeroEntries }
-    | .base (.envReleased k) => some { m with inval := k :: m.inval }
-    | .base (.invSetCtx a _ _) => some { m with ctxCalls := a :: m.ctxCalls, anyCtx := true }
-    | .base (.retSetCtx a _) => some { m with ctxCalls := m.ctxCalls.erase a }
-    | .base (.invRelease _ r) => some { m with relInv := r :: m.relInv }
-    | .base (.cbinRel k _) =>
-      -- wait_keeps_alive: not while a reference returned with that value is held, unless invalidated
-      if m.held.any (fun p => p.2 == some k && !m.relInv.contains p.1) && !m.inval.contains k && m.ctxCalls.isEmpty
-      then none
-      else some { m with relSeen := k :: m.relSeen
-                         accCur := m.accCur.map fun p => if p.2.2.1 == some k then (p.1, p.2.1, p.2.2.1, true) else p }
-    | .inv a op => some { m with ops := (a, op) :: m.ops }
-    | .cancelCall a => some { m with cancelled := a :: m.cancelled }
-    | .cbin a i v =>
-      -- access_value_current (observable part): a resolved value without error, entries numbered, one at a time
-      if opOf m a == some .access && m.resVals.contains (v, 0) && i == countOf m.accCount a &&
-         !m.accCur.any (·.1 == a) then
-        some { m with accCur := (a, i, entryOf m v, false) :: m.accCur
-                      accCount := (a, i + 1) :: m.accCount.filter (·.1 != a) }
-      else none
-    | .cbout a i r =>
-      match m.accCur.find? (fun p => p.1 == a && p.2.1 == i) with
-      | some p => some { m with accCur := m.accCur.filter (·.1 != a)
-                                accLast := (a, i, p.2.2.2, r) :: m.accLast.filter (·.1 != a) }
-      | none => none
-    | .probeCtx a i c =>
-      -- access_cancel: by the next quiescence the callback context of an invalidated value (or of a
-      -- cancelled caller) is cancelled — zero values included
-      match m.accCur.find? (fun p => p.1 == a && p.2.1 == i) with
-      | some p => if (entInvalidated m p.2.2.1 || m.cancelled.contains a) && !c then none else some m
-      | none => none
-    | .ret a v e =>
-      match opOf m a with
-      | some .access =>
-        -- access_result: the error is `Canceled` of a cancelled caller, or a resolver's error, or the
-        -- result of the last callback, whose value was not invalidated before it returned (a
-        -- disjunction: the model does not restrict the error ids a callback may return)
-        if m.accCur.any (·.1 == a) then none
-        else if (e == 9 && m.cancelled.contains a) || (e != 0 && m.resVals.any (·.2 == e)) ||
-            (match m.accLast.find? (·.1 == a) with
-             | some p => p.2.2.2 == e && !p.2.2.1
-             | none => false) then some m else none
-      | some _ =>
-        if e == 9 && m.cancelled.contains a then some m
-        else if !m.resVals.contains (v, e) then none
-        else if e ≠ 0 then some m
-        else
-          -- a value that is already released when it is returned must have been invalidated
-          match entryOf m v with
-          | some k =>
-            if m.relSeen.contains k && !m.inval.contains k && !m.anyCtx then none
-            else some { m with held := (a, some k) :: m.held }
-          | none => some { m with held := (a, none) :: m.held }
-      | none => none
-    | .cbinReleased a =>
-      -- released_once: at most once, only for a call that passed a callback, only after an invalidation
-      if opOf m a == some (.rwr true) && !m.fired.contains a && (!m.inval.isEmpty || m.anyCtx) then
-        some { m with fired := a :: m.fired }
-      else none
-    | .base (.quiesce _) =>
-      -- released_once (exactly when): a held value that has been invalidated (its release function ran,
-      -- or its released() was called) has fired the callback by the next quiescence point
-      if m.held.all fun p =>
-          !(opOf m p.1 == some (.rwr true) && !m.relInv.contains p.1 && entInvalidated m p.2) ||
-          m.fired.contains p.1
-      then some m else none
-    | _ => some m
+  step := fun m o => if chk m o then some (trk m o) else none
+
+/-- **access_value_current (observable part).** The Access callback is entered by an `Access` call
+only, with a value some resolver returned without error, entries numbered, one at a time, returns
+matching entries; `Access` does not return while its callback runs; `Wait` / `Resolve` /
+`ResolveWithReleased` return `Canceled` to a cancelled caller or a result some resolver returned. -/
+def chkValue (m : C10St) (o : CObs) : Bool :=
+  match o with
+  | .cbin a i v =>
+    opOf m a == some .access && m.resVals.contains (v, 0) && i == countOf m.accCount a &&
+      !m.accCur.any (·.1 == a)
+  | .cbout a i _ => (m.accCur.find? (fun p => p.1 == a && p.2.1 == i)).isSome
+  | .ret a v e =>
+    match opOf m a with
+    | some .access => !m.accCur.any (·.1 == a)
+    | some _ => (e == 9 && m.cancelled.contains a) || m.resVals.contains (v, e)
+    | none => false
+  | _ => true
+
+/-- **access_result.** The error `Access` returns is `Canceled` of a cancelled caller, or a resolver's
+error, or the result of the last callback, whose value was not invalidated before it returned (a
+disjunction: the model does not restrict the error ids a callback may return). -/
+def chkResult (m : C10St) (o : CObs) : Bool :=
+  match o with
+  | .ret a _ e =>
+    match opOf m a with
+    | some .access =>
+      (e == 9 && m.cancelled.contains a) || (e != 0 && m.resVals.any (·.2 == e)) ||
+        (match m.accLast.find? (·.1 == a) with
+         | some p => p.2.2.2 == e && !p.2.2.1
+         | none => false)
+    | _ => true
+  | _ => true
+
+/-- **released_once.** The `released` callback runs at most once, only for a call that passed one,
+only after an invalidation. -/
+def chkReleased (m : C10St) (o : CObs) : Bool :=
+  match o with
+  | .cbinReleased a =>
+    opOf m a == some (.rwr true) && !m.fired.contains a && (!m.inval.isEmpty || m.anyCtx)
+  | _ => true
+
+/-- **access_cancel.** By the next quiescence point the callback context of an invalidated value
+(or of a cancelled caller) is cancelled — zero values included. -/
+def chkCancel (m : C10St) (o : CObs) : Bool :=
+  match o with
+  | .probeCtx a i c =>
+    match m.accCur.find? (fun p => p.1 == a && p.2.1 == i) with
+    | some p => !((entInvalidated m p.2.2.1 || m.cancelled.contains a) && !c)
+    | none => false
+  | _ => true
+
+/-- **released_once (exactly when).** A held value that has been invalidated (its release function
+ran, or its `released()` was called) has fired the callback by the next quiescence point. -/
+def chkFires (m : C10St) (o : CObs) : Bool :=
+  match o with
+  | .base (.quiesce _) =>
+    m.held.all fun p =>
+      !(opOf m p.1 == some (.rwr true) && !m.relInv.contains p.1 && entInvalidated m p.2) ||
+      m.fired.contains p.1
+  | _ => true
+
+/-- **wait_keeps_alive.** A release function does not run while a reference returned with that value
+is held, unless the value was invalidated; a value that is already released when it is returned must
+have been invalidated. -/
+def chkAlive (m : C10St) (o : CObs) : Bool :=
+  match o with
+  | .base (.cbinRel k _) =>
+    !(m.held.any (fun p => p.2 == some k && !m.relInv.contains p.1) && !m.inval.contains k && m.ctxCalls.isEmpty)
+  | .ret a v e =>
+    match opOf m a with
+    | some .access => true
+    | some _ =>
+      e != 0 ||
+        (match entryOf m v with
+         | some k => !(m.relSeen.contains k && !m.inval.contains k && !m.anyCtx)
+         | none => true)
+    | none => true
+  | _ => true
+
+abbrev monC10Value := clause chkValue
+abbrev monC10Result := clause chkResult
+abbrev monC10Released := clause chkReleased
+abbrev monC10Cancel := clause chkCancel
+abbrev monC10Fires := clause chkFires
+abbrev monC10Alive := clause chkAlive
+
+/-- C10 = the conjunction of its clause monitors (they share the bookkeeping `trk`) -/
+abbrev monC10 :=
+  (monC10Value.rcBoth monC10Result).rcBoth
+    ((monC10Released.rcBoth monC10Cancel).rcBoth (monC10Fires.rcBoth monC10Alive))
 
 /-- base clauses that remain meaningful in the presence of consumer references -/
 abbrev monC08c := liftMon (monOnce.rcBoth monHidden)
